@@ -78,8 +78,10 @@ int main(int argc, char** argv) {
     std::vector<S> inputs{""}; const char al[] = {'2', '-', '*', ' '};
     for (size_t lo = 0, l = 0; l < (size_t)n; ++l) { size_t hi = inputs.size(); for (size_t i = lo; i < hi; ++i) for (char c : al) inputs.push_back(inputs[i] + c); lo = hi; }
     for (const char* x : {"-2*2-2*-2", "2-2*2-2*2-2", "--2*2", "2*-2*2", "-2--2", "2*2*2-2-2*2"}) inputs.push_back(x);
+    const bool only_custom = argc > 2 && S(argv[2]) == "custom";
 #define TERMS terms('2', o_minus, o_mul)
 #define BIN expr('2') >= leaf, expr(expr, '-', expr) >= sub, expr(expr, '*', expr) >= mul
+    if (!only_custom) {
     { static const parser p(expr, TERMS, nterms(expr), rules(BIN, expr('-', expr)[3] >= neg)); run_variant<false>("[3] >= f", p, 3, 1, 2, inputs); }
     { static const parser p(expr, TERMS, nterms(expr), rules(BIN, (expr('-', expr) >= neg)[3])); run_variant<false>("(>= f)[3]", p, 3, 1, 2, inputs); }
     { static const parser p(expr, TERMS, nterms(expr), rules(BIN, expr('-', expr)[3] >>= cneg)); run_variant<true>("[3] >>= f", p, 3, 1, 2, inputs); }
@@ -146,6 +148,7 @@ int main(int argc, char** argv) {
             if (wok) ++g_accept;
         }
     }
+    }   // !only_custom
     {   // nameless regex terms carrying precedence, and the same operator grammar with custom terms (use_lexer) carrying precedence and associativity -
         // including left associativity at precedence 0: "everything else is as for the generated lexer"
         static constexpr char minus_pat[] = "-"; static constexpr char mul_pat[] = "\\*";
